@@ -480,7 +480,8 @@ func HarnessC18FileSize() {
 		want := uint64(nd)
 		var sizes []uint64
 		for i := 0; i < k; i++ {
-			sz := verifrt.NondetU64("bs")
+			sz := uint64(verifrt.NondetU32("bs")) // three varint classes are enough: the claim is about sums, not encodings
+			verifrt.Assume(sz < 1<<21)
 			sizes = append(sizes, sz)
 			n.AddBlockSize(sz)
 			want += sz
@@ -525,6 +526,7 @@ func HarnessC18FileSize() {
 		verifrt.Assert("C18.filesize-symlink-node", zzvReload(n).FileSize() == uint64(nd))
 	case 5: // FilePBData: declared total size
 		ts := verifrt.NondetU64("total")
+		verifrt.Assume(ts < 1<<28)
 		n2, err := FSNodeFromBytes(FilePBData(data, ts))
 		verifrt.Assert("C18.filepbdata-frombytes-ok", err == nil)
 		verifrt.Assert("C18.filesize-filepbdata", n2.FileSize() == ts)
